@@ -1,11 +1,11 @@
 package checks
 
 import (
-	"time"
-	"sync/atomic"
 	"fmt"
 	"strings"
 	"sync"
+	"sync/atomic"
+	"time"
 
 	mm "verif/minimysql"
 	"verif/vc"
